@@ -172,3 +172,35 @@ func HarnessC13Encode(kind, n, level int) {
 	vassert("C09.out.crc", crc == computeCRC32(got[:len(got)-4]))
 	vreach("C13.encode.end")
 }
+
+// HarnessC13DecodeBig: descriptor loops of 1024 bytes and more (all 12 bits of the loop length are used) in the SI
+// tables whose sections may be up to 4093 bytes long
+func HarnessC13DecodeBig(kind int) {
+	s := vModelSection(kind, 1, -1)
+	var big []*Descriptor
+	for k := 0; k < 5; k++ {
+		// concrete recognisable contents: a mis-parsed loop must not turn into 1250 symbolic bytes
+		d := &Descriptor{Tag: 0x90 + uint8(k), Length: 250, UserDefined: make([]byte, 250)}
+		for i := range d.UserDefined {
+			d.UserDefined[i] = 0x80 | byte(k)<<4 | byte(i%16)
+		}
+		big = append(big, d)
+	}
+	switch kind {
+	case 2:
+		s.sdt.Services[0].Descriptors = big
+		s.sdt.Services = append(s.sdt.Services, &SDTDataService{ServiceID: vnondetU16(), RunningStatus: vBits8(3)})
+	case 3:
+		s.nit.NetworkDescriptors = big
+	case 4:
+		s.eit.Events[0].Descriptors = big
+		s.eit.Events = append(s.eit.Events, &EITDataEvent{EventID: vnondetU16(), StartTime: vTimes[0], Duration: vOffsets[1], RunningStatus: vBits8(3)})
+	}
+	b, _ := refEncSection(s)
+	buf := append([]byte{0}, b...)
+	d, err := parsePSIData(astikit.NewBytesIterator(buf))
+	vassert("C13.big.err", err == nil && len(d.Sections) == 1)
+	c13CheckHeader(d.Sections[0], s, len(b)-3)
+	c13CheckData(d.Sections[0].Syntax.Data, s)
+	vreach("C13.big.end")
+}
